@@ -211,8 +211,30 @@ def check_json_ints(obj, path="$"):
     raise MachineryError(f"trace encoding: unsupported value {type(obj).__name__} at {path}: {obj!r}")
 
 
+_bad_json = re.compile(r'(?<![\w"])(?:null|NaN|Infinity|-?\d+\.\d+(?:[eE][-+]?\d+)?|-?\d+[eE][-+]?\d+)(?![\w"])')
+_big_int = re.compile(r'(?<![\w".])-?\d{10,}(?![\w".])')
+
+
+def _fast_guard(text):
+    """Encoding guard on the serialized JSON, outside string literals: no floats/null, every integer < 2^31."""
+    # strip string literals first (they may contain anything)
+    bare = re.sub(r'"(?:[^"\\]|\\.)*"', '""', text)
+    m = _bad_json.search(bare)
+    if m:
+        raise MachineryError(f"trace encoding: float/null in trace near ...{bare[max(0, m.start()-60):m.end()+20]}...")
+    for m in _big_int.finditer(bare):
+        if not (-2**31 < int(m.group()) < 2**31):
+            raise MachineryError(f"trace encoding: integer out of TLC range: {m.group()}")
+
+
 def write_trace(path, records):
-    check_json_ints(records)
+    """Serialize with the C encoder, then guard the text (ints < 2^31, no floats, no nulls)."""
+    try:
+        text = json.dumps(records, separators=(",", ":"), allow_nan=False)
+    except (TypeError, ValueError) as e:
+        check_json_ints(records)        # gives the path of the offending value
+        raise MachineryError(f"trace encoding: {e}") from e
+    _fast_guard(text)
     with open(path, "w") as f:
-        json.dump(records, f, separators=(",", ":"))
+        f.write(text)
     return path
